@@ -10,6 +10,7 @@ package kcp
 //   G4 fields fixed at construction (conv, headerSize, remote, conn, block, l, fecEncoder): never written
 
 import (
+	"crypto/cipher"
 	"net"
 	"time"
 )
@@ -180,4 +181,21 @@ func vfH_C14_timedsched_put() {
 	vfMonitorOff()
 	vfReach("done")
 	vfAssert("put/queued", len(ts.prependTasks) == 2)
+}
+
+func vfNewCipherBlock() cipher.Block { return vfNewBlock(16) }
+
+// the process-wide AES entropy source: seed, counter and cipher only under its mutex, also
+// across the re-key that happens every 2^24 reads
+func vfH_C14_entropy_aes() {
+	r := &rngAES{block: vfNewBlock(16)}
+	r.count = []uint64{0, reseedInterval - 1, reseedInterval}[vfPick("count", 0, 2)]
+	vfGuard("rngAES.mutex", &r.mutex, &r.seed, &r.count, &r.block)
+	vfReach("guarded")
+	p := make([]byte, []int{0, 5, 16, 40}[vfPick("len", 0, 3)])
+	vfMonitorOn()
+	n, err := r.Read(p)
+	vfMonitorOff()
+	vfReach("done")
+	vfAssert("entropy/read-reports-length", vfAnd(err == nil, n == min(len(p), 16)))
 }
